@@ -66,7 +66,9 @@ def runReduceOp (op : String) (attrs : Json) (ins : List (Option DT)) : Answer :
           | some t => if dup || keep != keepOnnx then { domain := "unspecified" } else { domain := "must", outs := some [some (DT.mk X.dt t none)] }
           | none => { domain := "mayRefuse" },
         guard := if sp.isNone then ["reduce.axis_out_of_range"]
-                 else if axes.isEmpty && keep then ["reduce.no_axes_keepdims"] else [] }
+                 else if axes.isEmpty && keep then ["reduce.no_axes_keepdims"]
+                 else if innerAxesOnly X.t.rank ((axes.map fun a => if a < 0 then a + r else a).map Int.toNat) then ["reduce.rank4_inner_axis_first"]
+                 else [] }
   | "Softmax", [some X] | "LogSoftmax", [some X] =>
     if (attrNames attrs).length > 1 then { model := .ofErr .attr, spec := { domain := "mayRefuse" }, tags := ["attr-count"] }
     else
